@@ -496,17 +496,20 @@ func (it *stringIter) next() tuple {
 }
 
 type mapIter struct {
-	m    map[value]value
-	keys []value
-	i    int
+	m       map[value]value
+	entries [][2]value
+	i       int
 }
 
 func (it *mapIter) next() tuple {
-	for it.i < len(it.keys) {
-		k := it.keys[it.i]
+	for it.i < len(it.entries) {
+		e := it.entries[it.i]
 		it.i++
-		if v, ok := it.m[k]; ok { // entries deleted during the iteration are skipped
-			return []value{true, k, v}
+		if _, isSym := e[0].(symstr); isSym {
+			return []value{true, e[0], e[1]}
+		}
+		if v, ok := it.m[e[0]]; ok { // entries deleted during the iteration are skipped
+			return []value{true, e[0], v}
 		}
 	}
 	return []value{false, nil, nil}
